@@ -65,7 +65,7 @@ func Params() []Param {
 	}
 	for _, n := range []string{"@", "*"} {
 		ps = append(ps, Param{Name: n}, Param{Name: n, Args: []string{""}}, Param{Name: n, Args: []string{"one"}},
-			Param{Name: n, Args: []string{"a", "bc"}}, Param{Name: n, Args: []string{"", "2", ""}}, Param{Name: n, Args: []string{"a b", "c,d", "e:f"}})
+			Param{Name: n, Args: []string{"a", "bc"}}, Param{Name: n, Args: []string{"", "2", ""}}, Param{Name: n, Args: []string{"", ""}}, Param{Name: n, Args: []string{"a b", "c,d", "e:f"}})
 	}
 	for _, n := range []string{"#", "?", "-", "$", "!", "0"} {
 		ps = append(ps, Param{Name: n}, Param{Name: n, Args: []string{"a", "b"}})
